@@ -69,7 +69,7 @@ def no_panic(obs, case):
 
 def after_end_absorbing(obs, case):
     """C12 on the implementation's own trace: per runner, after END every next is END with no effects, until a restore."""
-    ops = re.findall(r"\((next|snap|resnap|restore|restorebad|hset|complete|new) (\d+)", case.split("(ops", 1)[-1])
+    ops = re.findall(r"\((next|snap|resnap|mutsnap|restore|restorebad|hset|complete|new) (\d+)", case.split("(ops", 1)[-1])
     ended = {}
     for i, (op, j) in enumerate(ops):
         if i + 1 >= len(obs):
@@ -204,7 +204,7 @@ def numeric_contracts(obs, case):
 
 def snapshots_immutable(obs, case):
     """C07 on the implementation's own trace: every re-observation of a snapshot equals what it showed when taken"""
-    ops = re.findall(r"\((next|snap|resnap|restore|restorebad|hset|complete|new) (\d+)", case.split("(ops", 1)[-1])
+    ops = re.findall(r"\((next|snap|resnap|mutsnap|restore|restorebad|hset|complete|new) (\d+)", case.split("(ops", 1)[-1])
     snaps = []
     for i, (op, j) in enumerate(ops):
         if i + 1 >= len(obs):
@@ -212,6 +212,8 @@ def snapshots_immutable(obs, case):
         o = obs[i + 1]
         if op == "snap" and o.startswith("SNAP"):
             snaps.append(o)
+        elif op == "mutsnap" and o.startswith("SNAP") and int(j) < len(snaps):
+            snaps[int(j)] = o   # the host changed this snapshot itself
         elif op == "resnap" and o.startswith("SNAP"):
             k = int(j)
             if k < len(snaps) and snaps[k] != o:
